@@ -1,6 +1,7 @@
 """Per-property configuration of the checks."""
 
 RUN_ACCESS = ("internal/run", "run_access.go")
+FILE_ACCESS = ("internal/trigger/file", "file_access.go")
 
 PROPS = {}
 
@@ -72,12 +73,13 @@ prop(
 
 prop(
     id="C13",
-    stages=[dict(name="c13", pkg="c13", test="TestC13", access=[], timeout_quick=240, timeout_thorough=2400)],
+    stages=[dict(name="c13", pkg="c13", test="TestC13", access=[], timeout_quick=240, timeout_thorough=2400),
+            dict(name="c14config", pkg="c14", test="TestC14Config", access=[FILE_ACCESS], timeout_quick=300, timeout_thorough=3000)],
     ok_pred={"jitter": "jitter_ok"},
     check_ok_always=True,
     rule="api.WithJitter around scripted rate lists (constant, ramps, bursts, zeros, random; lengths 1..200, some 1000-10000), jitter in "
          "{0,0.5,2,20,50,99,99.9,33.3,...}; the global math/rand source is seeded and mirrored so the model receives the very cos factors as float64 bit patterns; "
-         "exact per-tick equality with the binary64 transcription; non-trivial = jitter != 0; distinct = distinct (jitter, rates, factors) tuples",
+         "exact per-tick equality with the binary64 transcription; the jitter in force for every stage of generated config files (stage's own - 0 included - before the default section's), seen as 24 evaluations of the stage's rate function that agree (zero jitter is the identity) or vary (predicate config_jitter_ok); non-trivial = jitter != 0 / config with stage-start and >= 2 stages; distinct = distinct (jitter, rates, factors) tuples / configs",
     assumptions=["math.Cos and math/rand are oracles: their values are taken from the run, not modelled",
                  "rand.Seed seeds the global source deterministically (Go < 1.24 semantics; go1.23.5 here)",
                  "float64 = IEEE-754 binary64 (see C10 stage f64)",
@@ -146,9 +148,12 @@ prop(
 
 prop(
     id="C20",
-    stages=[dict(name="c20", pkg="c06", test="TestC20", access=[WORKERS_ACCESS], timeout_quick=300, timeout_thorough=3000)],
+    stages=[dict(name="c20", pkg="c06", test="TestC20", access=[WORKERS_ACCESS], timeout_quick=300, timeout_thorough=3000),
+            dict(name="c20file", pkg="c06", test="TestC20File", access=[WORKERS_ACCESS, RUN_ACCESS], timeout_quick=300, timeout_thorough=3000)],
     rule="0-7 generated components (setup and iteration bodies of marks, cleanups, Fail, FailNow, panics) combined by the real f1.CombineScenarios and run through "
          "ActiveScenario.Setup/Run for 1-3 iterations: event log, setup-failed flag and per-iteration outcomes equal the model's exactly; handle identity checked by pointer; "
+         "whole file-triggered runs (a pool per stage) of generated combined scenarios in which every third iteration pauses between its first and second component across a stage boundary: "
+         "per-iteration event logs grouped by handle equal the model's, no handle in use twice, iteration id stable across components, totals all-failed or all-successful; "
          "non-trivial = at least two components; distinct = distinct programs",
     assumptions=["scenario code follows the documented contract"],
 )
@@ -165,7 +170,6 @@ prop(
                  "label maps have distinct keys (Go map)"],
 )
 
-FILE_ACCESS = ("internal/trigger/file", "file_access.go")
 
 
 def c14_key(c, model):
